@@ -9,6 +9,9 @@
    cycle under every maximal allocation), and the real snapshot must equal the model's snapshot of the
    real pre-state.  D_ monitors are only judged in states in which all C12_ predicates hold (what a
    property constrains is never reported as drift).
+   Every schedule ends with a fault-free drain run by the harness (StartDrain, successful reconciles of the
+   queued keys, scheduler cycles, until a whole round changes nothing) and a `Quiesced` line: C12_Quiesces
+   judges the real final state - an observation that does not depend on model and code staying in lock-step.
    One initial state per Scenario line; `l` = next line, `l0` = line of the Scenario.                       *)
 EXTENDS Handoff
 
@@ -17,7 +20,7 @@ Trace == ndJsonDeserialize("trace.ndjson")
 VARIABLES l, l0,
           pred,  \* predicted successors of the real pre-state: set of [post, err, rq, bind]
           rec,   \* the real reconcile result [err, rq, bind]
-          xs     \* extra real observations: [model: model snapshot of the pre-state, cpu, grp, wf, ev]
+          xs     \* extra real observations: [model: model snapshot of the pre-state, cpu, wf, ev, conv]
 tvars == <<vars, l, l0, pred, rec, xs>>
 
 NodeName == "n1"
@@ -26,18 +29,23 @@ PodMilliCpu == 1000
 
 Starts == {i \in 1..Len(Trace) : Trace[i].ev = "Scenario"}
 
+SetOf(seq) == {seq[i] : i \in 1..Len(seq)}
 StateOf(e) ==
-  [lim |-> e.lim, req |-> [p \in Pods |-> e.req[p]], persist |-> FALSE,
-   up |-> e.st.up = 1, flips |-> e.st.flips, restarts |-> e.st.restarts,
+  [lim |-> e.lim, gpus |-> e.gpus, req |-> [p \in Pods |-> e.req[p]], nd |-> [p \in Pods |-> e.nd[p]],
+   persist |-> FALSE, drain |-> e.st.drain = 1,
+   up |-> e.st.up = 1, flips |-> e.st.flips, restarts |-> e.st.restarts, leaks |-> e.st.leaks,
    alive |-> [p \in Pods |-> e.st.pods[p].alive = 1],
    bound |-> [p \in Pods |-> e.st.pods[p].bound = 1],
    br |-> [p \in Pods |-> [ex |-> e.st.pods[p].ex = 1, ph |-> e.st.pods[p].ph, fa |-> e.st.pods[p].fa, gen |-> e.st.pods[p].gen]],
+   dev |-> [p \in Pods |-> SetOf(e.st.pods[p].dev)], lab |-> [p \in Pods |-> SetOf(e.st.pods[p].lab)],
    q |-> [p \in Pods |-> e.st.pods[p].q = 1],
    att |-> [p \in Pods |-> e.st.pods[p].att], fl |-> [p \in Pods |-> e.st.pods[p].fl]]
 
 SnapOfLog(e) ==
   [st |-> [p \in Pods |-> e.snap.st[p]], on |-> [p \in Pods |-> e.snap.on[p] = NodeName],
-   idle |-> e.snap.idle, node |-> e.snap.node = 1]
+   grp |-> [p \in Pods |-> SetOf(e.snap.grp[p])],
+   mem |-> [d \in Slots |-> IF d <= Len(e.snap.mem) THEN e.snap.mem[d] ELSE 0],
+   whole |-> e.snap.whole, idle |-> e.snap.idle, node |-> e.snap.node = 1]
 
 \* the logged store is well-formed w.r.t. the abstraction (single node, limit of the scenario)
 WfLog(e) ==
@@ -51,55 +59,58 @@ Quiet(post) == [post |-> post, err |-> FALSE, rq |-> 0, bind |-> FALSE]
 \* is not enabled in the real state is skipped by the harness (rec.ran = 0) and must leave the state unchanged.
 EnabledIn(s, e) ==
   CASE e.ev = "SchedCycle" -> TRUE
-    [] e.ev = "BinderAttempt" -> s.q[e.p]
+    [] e.ev = "BinderAttempt" -> s.q[e.p] /\ (e.out = "faillabel" => Reach(s, e.p) /\ IsFrac(s, e.p) /\ s.nd[e.p] = 2)
     [] e.ev = "BindDoneStatusLost" -> StatusLostEnabled(s, e.p)
+    [] e.ev = "BinderCrashAfterLabel" -> CrashEnabled(s, e.p)
     [] e.ev = "BinderRestart" -> \E p \in Pods : s.br[p].ex /\ ~s.q[p]
     [] e.ev = "NodeDeleted" -> s.up
     [] e.ev = "NodeAdded" -> ~s.up
     [] e.ev = "PodDeleted" -> s.alive[e.p]
     [] e.ev = "GcBr" -> s.br[e.p].ex /\ ~s.alive[e.p]
+    [] e.ev = "StartDrain" -> ~s.drain
+    [] e.ev = "Quiesced" -> FALSE
     [] OTHER -> FALSE
 Predict(s, e) ==
-  IF e.ev \notin {"SchedCycle", "BinderAttempt", "BindDoneStatusLost", "BinderRestart", "NodeDeleted", "NodeAdded", "PodDeleted", "GcBr"} THEN {}
+  IF e.ev \notin {"SchedCycle", "BinderAttempt", "BindDoneStatusLost", "BinderCrashAfterLabel", "BinderRestart", "NodeDeleted",
+                  "NodeAdded", "PodDeleted", "GcBr", "StartDrain", "Quiesced"} THEN {}
   ELSE IF ~EnabledIn(s, e) THEN {Quiet(s)}
   ELSE CASE e.ev = "SchedCycle" -> {Quiet(t) : t \in CyclePosts(s)}
-    [] e.ev = "BinderAttempt" -> {LET r == BinderRun(s, e.p, e.out, rule) IN [post |-> r.post, err |-> r.err, rq |-> r.rq, bind |-> r.bind] : rule \in PatchRules}
+    [] e.ev = "BinderAttempt" -> UNION {{[post |-> r.post, err |-> r.err, rq |-> r.rq, bind |-> r.bind] : r \in BinderRuns(s, e.p, e.out, rule)} : rule \in PatchRules}
     [] e.ev = "BindDoneStatusLost" -> {[post |-> StatusLostPost(s, e.p), err |-> FALSE, rq |-> 0, bind |-> TRUE]}
+    [] e.ev = "BinderCrashAfterLabel" -> {Quiet(t) : t \in CrashPosts(s, e.p)}
     [] e.ev = "BinderRestart" -> {Quiet(RestartPost(s))}
     [] e.ev = "NodeDeleted" -> {Quiet([s EXCEPT !.up = FALSE, !.flips = s.flips + 1])}
     [] e.ev = "NodeAdded" -> {Quiet([s EXCEPT !.up = TRUE, !.flips = s.flips + 1])}
-    [] e.ev = "PodDeleted" -> {Quiet([s EXCEPT !.alive[e.p] = FALSE, !.bound[e.p] = FALSE])}
+    [] e.ev = "PodDeleted" -> {Quiet(PodDeletedPost(s, e.p))}
     [] e.ev = "GcBr" -> {Quiet(GcPost(s, e.p))}
+    [] e.ev = "StartDrain" -> {Quiet(DrainPost(s))}
 
 TraceInit ==
   \E i \in Starts :
     /\ l0 = i /\ l = i + 1
     /\ S = StateOf(Trace[i]) /\ obs = NoObs /\ act = [n |-> "Init", p |-> "", out |-> ""]
     /\ pred = {Quiet(S)} /\ rec = [err |-> FALSE, rq |-> 0, bind |-> FALSE]
-    /\ xs = [model |-> SnapOf(S), cpu |-> 0, grp |-> [p \in Pods |-> 0], wf |-> WfLog(Trace[i]), ev |-> "Scenario"]
+    /\ xs = [model |-> SnapOf(S), cpu |-> 0, wf |-> WfLog(Trace[i]), ev |-> "Scenario", conv |-> FALSE]
 
 TraceStep ==
   /\ l <= Len(Trace) /\ Trace[l].ev # "Scenario"
   /\ LET e == Trace[l] IN
        /\ S' = StateOf(e)
-       /\ obs' = IF e.ev = "SchedCycle" THEN [k |-> "cycle", pre |-> S, snap |-> SnapOfLog(e)] ELSE NoObs
+       /\ obs' = IF e.ev = "SchedCycle" /\ e.skip = 0 THEN [k |-> "cycle", pre |-> S, snap |-> SnapOfLog(e)] ELSE NoObs
        /\ act' = [n |-> e.ev, p |-> e.p, out |-> e.out]
        /\ pred' = Predict(S, e)
        /\ rec' = [err |-> e.rec.err = 1, rq |-> e.rec.rq, bind |-> e.rec.bind = 1]
-       /\ xs' = [model |-> SnapOf(S), cpu |-> e.snap.cpu, grp |-> [p \in Pods |-> e.snap.grp[p]], wf |-> WfLog(e), ev |-> e.ev]
+       /\ xs' = [model |-> SnapOf(S), cpu |-> e.snap.cpu, wf |-> WfLog(e), ev |-> e.ev, conv |-> e.conv = 1]
   /\ l' = l + 1 /\ UNCHANGED l0
 
 TraceNext == TraceStep
 TraceSpec == TraceInit /\ [][TraceNext]_tvars
 
-(* ---- trace-level property: the GPU groups of the request are part of what the snapshot charges ------------ *)
-C12_GpuGroupsCharged ==
-  obs.k = "cycle" =>
-    \A p \in Pods : (obs.pre.alive[p] /\ ~obs.pre.bound[p] /\ obs.pre.up /\ Live(obs.pre.br[p], obs.pre.lim) /\ obs.pre.req[p] < 100)
-                      => xs.grp[p] >= 1
+(* ---- trace-level property: after the fault-free drain the hand-off has come to rest in a good state ------- *)
+C12_Quiesces == xs.ev = "Quiesced" => xs.conv /\ Quiescent(S)
 
-C12_All == /\ C12_Charged /\ C12_NoDoubleBooking /\ C12_DeletedNode /\ C12_FailedCleaned /\ C12_BoundedRetry
-           /\ C12_AttemptsPersisted /\ C12_FailedObservable /\ C12_GpuGroupsCharged
+C12_All == /\ C12_Charged /\ C12_ChargedGroups /\ C12_NoDoubleBooking /\ C12_DeletedNode /\ C12_FailedCleaned
+           /\ C12_BoundedRetry /\ C12_AttemptsPersisted /\ C12_FailedObservable /\ C12_Quiesces
 
 (* ---- drift monitors ---------------------------------------------------------------------------------------- *)
 D_WellFormed == xs.wf
